@@ -13,6 +13,7 @@ pub fn checks() -> Vec<Box<dyn Check>> {
         Box::new(CheckA { id: "C01", accept: &["C01.", "panic"], level: "exploration" }),
         Box::new(CheckA { id: "C02", accept: &["C02.", "panic"], level: "fault_enumeration" }),
         Box::new(CheckA { id: "C03", accept: &["C03.", "panic"], level: "exploration" }),
+        Box::new(CheckA { id: "C04", accept: &["C04.", "panic"], level: "fault_enumeration" }),
         Box::new(CheckA { id: "C13", accept: &["C13.", "panic"], level: "exploration" }),
         Box::new(CheckA { id: "C18", accept: &["C18.", "panic"], level: "fault_enumeration" }),
     ]
@@ -54,7 +55,7 @@ pub fn gen_agg_plan(rng: &mut Rng, n: usize, reports: usize, refusals: bool) -> 
 
 fn gen_reports(inst: &Inst, rng: &mut Rng, k: usize) -> Vec<Rep> {
     (0..k)
-        .map(|_| Rep { nonce: Hx(rng.bytes(16)), rand: Hx(rng.bytes(model::rand_len(inst))), meas: model::gen_meas(inst, rng), evil: false, twin: None })
+        .map(|_| Rep { nonce: Hx(rng.bytes(16)), rand: Hx(rng.bytes(model::rand_len(inst))), meas: model::gen_meas(inst, rng), evil: false, twin: None, byz: Vec::new() })
         .collect()
 }
 
@@ -218,6 +219,68 @@ fn gen_plan(id: &str, seed: u64, _run: u64, tier: Tier) -> PlanA {
                 for c in p.crashes.iter_mut() {
                     c.step = rng.below(events as u64) as u32;
                 }
+            }
+            p
+        }
+        "C04" => {
+            let mut inst = crate::inst_poplar::gen_poplar_inst(rng, false);
+            inst.len = *rng.pick(&[1u32, 2, 2, 3, 3, 4, 5, 6, 8, 8, 16, 16, 33, 64]);
+            let bits = inst.len as usize;
+            let k = 1 + rng.usize_below(3);
+            let byz = rng.chance(1, 2);
+            let mut p = base_plan(inst, if byz { "byz" } else { "tamper" }, rng, k);
+            p.timeouts = true;
+            let inputs: Vec<Vec<N>> = p.reports.iter().map(|r| r.meas.clone()).collect();
+            // candidates: usually include the victim's path
+            p.aps = crate::inst_poplar::gen_ap_history(rng, &p.inst, &inputs, 2, 6);
+            let naps = p.aps.len() as u32;
+            if byz {
+                let victim = rng.usize_below(k);
+                let ne = if rng.chance(3, 4) { 1 } else { 2 };
+                for _ in 0..ne {
+                    // aim at a queried level most of the time
+                    let qlevel = (p.aps[rng.usize_below(p.aps.len())][0].len() - 1) as u16;
+                    let level = if rng.chance(3, 4) { qlevel } else { rng.below(bits as u64) as u16 };
+                    let e = match rng.below(10) {
+                        0..=4 => ByzEdit::Payload { level, beta: rng.pick(&["0", "2", "-1", "rand", "1", "2", "rand"]).to_string(), consistent: rng.chance(2, 3) },
+                        5 => ByzEdit::SeedCw { m: gen_mutation(rng, true) },
+                        6 | 7 => ByzEdit::CorrShare { agg: rng.below(2) as u8, level, which: rng.below(2) as u8, delta: N(rng.u128()) },
+                        _ => ByzEdit::KeyBytes { agg: rng.below(2) as u8, which: rng.below(2) as u8, m: Mutation::Flip { pos: rng.u32(), bit: rng.below(8) as u8 } },
+                    };
+                    p.reports[victim].byz.push(e);
+                }
+            } else {
+                let nf = if rng.chance(7, 10) { 1 } else { 2 + rng.usize_below(2) };
+                for _ in 0..nf {
+                    let rep = rng.below(k as u64) as u32;
+                    let ap = rng.below(naps as u64) as u32;
+                    let j = rng.below(2) as u8;
+                    let round = rng.below(2) as u8;
+                    let f = match rng.below(12) {
+                        0 => Fault { kind: EnvKind::Upload, rep, ap: 0, from: CLIENT, to: 0, round: 0, at_source: true, act: Act::Mutate { part: 0, m: gen_mutation(rng, false) } },
+                        1 => Fault { kind: EnvKind::Upload, rep, ap: 0, from: CLIENT, to: j, round: 0, at_source: false, act: Act::Mutate { part: 0, m: gen_mutation(rng, false) } },
+                        2..=4 => Fault { kind: EnvKind::Upload, rep, ap: 0, from: CLIENT, to: j, round: 0, at_source: false, act: Act::Mutate { part: 1, m: gen_mutation(rng, false) } },
+                        5..=7 => Fault { kind: EnvKind::VShare, rep, ap, from: j, to: COMBINER, round, at_source: false, act: Act::Mutate { part: 0, m: gen_mutation(rng, false) } },
+                        8 | 9 => Fault { kind: EnvKind::VMsg, rep, ap, from: COMBINER, to: j, round, at_source: false, act: Act::Mutate { part: 0, m: gen_mutation(rng, false) } },
+                        10 => Fault { kind: EnvKind::VShare, rep, ap, from: j, to: COMBINER, round, at_source: false, act: if rng.chance(1, 2) { Act::Drop } else { Act::Dup } },
+                        _ => {
+                            if k > 1 {
+                                let rep2 = (rep + 1 + rng.below(k as u64 - 1) as u32) % k as u32;
+                                Fault { kind: EnvKind::VShare, rep, ap, from: j, to: COMBINER, round, at_source: false, act: Act::Splice { rep2 } }
+                            } else {
+                                Fault { kind: EnvKind::VShare, rep, ap, from: j, to: COMBINER, round, at_source: false, act: Act::DupZero }
+                            }
+                        }
+                    };
+                    p.faults.push(f);
+                }
+            }
+            let events = k * p.aps.len() * 12 + 8;
+            if rng.chance(1, 2) {
+                p.choices = (0..events).map(|_| rng.u32()).collect();
+            }
+            if rng.chance(1, 4) {
+                p.crashes.push(Crash { step: rng.below(events as u64) as u32, node: rng.below(2) as u8, recompute: rng.chance(1, 2) });
             }
             p
         }
@@ -550,42 +613,59 @@ fn judge_robust<V: prio::vdaf::Vdaf, A: Adapter<V>>(plan: &PlanA, pass: &PassOut
     let mut cands: Vec<(u32, u32, String, String)> = Vec::new();
     let flag = |pass: &PassOut, ctx: &mut Ctx, record: bool| -> Vec<(u32, u32, String, String)> {
         let mut out = Vec::new();
-        let noneff: Vec<&EffFault> = pass.effective.iter().filter(|e| !e.exempt).collect();
+        let touches = |e: &EffFault, rep: u32, ap: u32| e.rep == rep && e.ap.map(|a| a == ap).unwrap_or(true);
         for ((rep, ap), v) in &pass.jobs {
             let fin = all_finished(v);
             let r = &plan.reports[*rep as usize];
+            let apspec = &plan.aps[*ap as usize];
+            let mine: Vec<&EffFault> = pass.effective.iter().filter(|e| touches(e, *rep, *ap)).collect();
+            // the single effective alteration of the run, if it is one the strict oracle covers for THIS job
+            let strict_fault: Option<&EffFault> = if pass.effective.len() == 1 && mine.len() == 1 && !mine[0].exempt && mine[0].site.as_ref().map(|s| ad.strict_applies(s, apspec, &r.meas)).unwrap_or(true) { Some(mine[0]) } else { None };
+            let label = pass.byz_labels.get(*rep as usize).and_then(|l| l.iter().find(|x| x.ap == *ap));
             if fin {
                 // robust: outputs sum to the truncation of a valid encoding
                 let outs: Vec<Vec<u8>> = v.iter().filter_map(|e| if let JobEnd::Finished(b) = e { Some(b.clone()) } else { None }).collect();
-                let (fs, p) = ad.out_field(&plan.aps[*ap as usize]);
+                let (fs, p) = ad.out_field(apspec);
                 if let Some(sum) = sum_outputs(&outs, fs, p) {
-                    if !model::output_valid(&plan.inst, &sum, &plan.aps[*ap as usize]) {
-                        out.push((*rep, *ap, format!("{rid}.robust"), format!("all aggregators finished report {rep} but the output shares sum to {:?}, not the truncation of a valid encoding", &sum[..sum.len().min(12)])));
+                    if !model::output_valid(&plan.inst, &sum, apspec) {
+                        out.push((*rep, *ap, format!("{rid}.robust"), format!("all aggregators finished report {rep} (agg param {ap}) but the output shares sum to {:?}, not {}", &sum[..sum.len().min(12)], if plan.inst.class == "poplar1" { "a zero or one-hot 0/1 vector" } else { "the truncation of a valid encoding" })));
                     }
                     if record {
                         ctx.counters.inc("c02.robust_checked");
                     }
                 }
                 // Byzantine client with an invalid vector must be rejected
-                if r.evil && r.twin.is_none() {
+                if r.evil && r.twin.is_none() && plan.inst.class != "poplar1" {
                     out.push((*rep, *ap, format!("{rid}.byz"), format!("invalid encoded measurement {:?}… with an honest proof was accepted by all aggregators", &r.meas[..r.meas.len().min(12)])));
                 }
-                // strict: exactly one effective, non-exempt alteration in the run and it touched this report
-                if pass.effective.len() == 1 && noneff.len() == 1 && noneff[0].rep == *rep {
-                    out.push((*rep, *ap, format!("{rid}.strict"), format!("a single alteration ({}) left verification complete at all aggregators", noneff[0].desc)));
+                if let Some(l) = label {
+                    if l.must_reject && mine.is_empty() {
+                        out.push((*rep, *ap, format!("{rid}.byz"), format!("a maliciously built report was accepted by both aggregators: {}", l.desc)));
+                    }
+                }
+                if let Some(f) = strict_fault {
+                    out.push((*rep, *ap, format!("{rid}.strict"), format!("a single alteration ({}) left verification complete at all aggregators", f.desc)));
                 }
             } else if r.evil && r.twin.is_some() && pass.effective.is_empty() {
                 out.push((*rep, *ap, format!("{rid}.fidelity"), "valid encoding through the Byzantine-client seam was rejected".into()));
-            } else if !r.evil && pass.effective.iter().all(|e| e.rep != *rep) {
-                // an untouched honest report in a tampering run must still be accepted
-                out.push((*rep, *ap, format!("{rid}.collateral"), format!("honest report {rep} untouched by any alteration was not accepted")));
+            } else if !r.evil && r.byz.is_empty() && mine.is_empty() {
+                // an untouched honest job in a tampering run must still be accepted
+                out.push((*rep, *ap, format!("{rid}.collateral"), format!("honest report {rep} (agg param {ap}) untouched by any alteration was not accepted")));
             }
             if record {
-                if r.evil && r.twin.is_none() && !fin {
+                if ((r.evil && r.twin.is_none()) || label.map(|l| l.must_reject).unwrap_or(false)) && !fin {
                     ctx.counters.inc("c02.byz_rejected");
                 }
-                if !fin && pass.effective.len() == 1 && noneff.len() == 1 && noneff[0].rep == *rep {
+                if label.map(|l| !l.must_reject).unwrap_or(false) {
+                    ctx.counters.inc(if fin { "c04.byz_acceptable_accepted" } else { "c04.byz_acceptable_rejected" });
+                }
+                if !fin && strict_fault.is_some() {
                     ctx.counters.inc("c02.strict_rejected");
+                }
+                if let Some(f) = mine.first() {
+                    if pass.effective.len() == 1 && strict_fault.is_none() && !f.exempt {
+                        ctx.counters.inc(if fin { "c04.nonstrict_single_accepted" } else { "c04.nonstrict_single_rejected" });
+                    }
                 }
             }
         }
@@ -697,6 +777,7 @@ impl Check for CheckA {
     fn runs(&self, tier: Tier) -> u64 {
         let q = match self.id {
             "C01" => 24_000,
+            "C04" => 24_000,
             "C03" => 12_000,
             "C02" => 30_000,
             "C13" => 20_000,
@@ -748,6 +829,7 @@ impl Check for CheckA {
             "C01" => "seeded swarm over Prio3 instance classes x parameters x batches, executed as a multi-party run over the simulated transport with reordering, absorbed duplicates and crash/restart from encoded state; distinct = distinct (class, n, multiproof, reports, fault-kind sequence, outcome) signatures among runs that executed >= 1 verify_init".into(),
             "C02" => "Byzantine client (library sharding over a raw invalid vector via the Evil<T> seam) or 1..3 alterations (bit/byte/truncate/extend/field-element add/non-canonical set, drop, extra share, cross-report splice) at every message class; robust, strict (single alteration) and must-reject oracles with 3-key confirmation; distinct = distinct (class, n, fault sequence incl. message class and mutation kind, outcome) signatures".into(),
             "C03" => "seeded Poplar1 runs (bits 1..256, rare deep instances up to 2^16) over the simulated transport: batches with planted heavy hitters, admissible histories of 1..4 aggregation parameters on the same stored reports, both rounds through the wire, crash/restart between rounds, absorbed duplicates; prefix counts vs brute force; iterative heavy-hitters vs brute force; distinct as C01".into(),
+            "C04" => "Poplar1 world-A runs (bits 1..64, 1..3 reports, 1..2 aggregation parameters) with either a Byzantine client built by rewriting an honest report on the wire before fan-out (on-path value re-programmed to beta in {0,1,2,-1,random} with a consistent or inconsistent authenticator; seed / control-bit correction words mutated; A/B shares altered; IDPF key or correlated-randomness seed bytes flipped) and LABELLED by re-evaluating both keys over the candidates with the library's own Idpf::eval, or 1..3 in-flight alterations of public share, input shares, round-one / round-two sketch shares and sketch messages (plus drop / extra / spliced shares); robust (zero or one-hot 0/1), must-reject (label) and strict (single alteration where the sketch algebra guarantees it) oracles with 3-key confirmation; distinct as C02".into(),
             "C13" => "fault-free world-A runs with 2..8 reports; per aggregator a seeded partition into batches, accumulate order, merge tree, identity merges; bytes compared with single-pass aggregate; wrong-length refusals; distinct as C01".into(),
             "C18" => "configuration skew drawn at world creation: ctx / verify key / nonce at one or all aggregators, identifier swap/steal/rotation; oracle: some aggregator fails (3-key confirmation) or the stated exception finishes with unchanged outputs".into(),
             _ => String::new(),
